@@ -86,6 +86,30 @@ def qself(p):
     return None
 
 
+def self_head(ty):
+    """Head ADT path of a type string: strips refs, generics; None for params/projections/primitives."""
+    if not ty:
+        return None
+    t = ty.strip()
+    while t.startswith('&'):
+        t = t[1:].lstrip()
+        if t.startswith("'"):
+            t = t.split(' ', 1)[1] if ' ' in t else t
+        if t.startswith('mut '):
+            t = t[4:]
+    if t.startswith('<') or t.startswith('[') or t.startswith('(') or t.startswith('dyn ') or t.startswith('impl '):
+        return None
+    h = t.split('<', 1)[0]
+    return h
+
+
+_PARAM = re.compile(r'^[A-Z][A-Za-z0-9]*$')
+
+
+def is_concrete_head(h):
+    return not _PARAM.match(h)
+
+
 class Fn:
     def __init__(self, raw, crate):
         self.raw = raw
@@ -402,77 +426,129 @@ class DB:
 
     # ---- E2: call graph
     def edges(self, fn):
-        """Resolved callees + fn items / closures mentioned as values."""
-        out = set()
+        """Call edges of one body: list of (callee_path, callee_full or None, resolved: bool)."""
+        out = []
+        seen = set()
+
+        def add(c, full, res, tr=None):
+            if c and (c, full) not in seen:
+                seen.add((c, full))
+                out.append((c, full, res, tr))
+
+        def from_operand(o):
+            k = o.get('k') if isinstance(o, dict) else None
+            if k:
+                if 'fn' in k:
+                    add(k['fn'], k.get('fn_full'), False)
+                if 'closure' in k:
+                    add(k['closure'], None, True)
+
         for bi, blk in enumerate(fn.blocks):
             t = blk['term']
             if t['k'] == 'call':
-                c = t.get('resolved') or t.get('callee')
-                if c:
-                    out.add(c)
+                if t.get('resolved'):
+                    add(t['resolved'], t.get('resolved_full'), True, t.get('callee_trait'))
+                elif t.get('callee'):
+                    add(t['callee'], t.get('callee_full'), False, t.get('callee_trait'))
                 for a in t['args']:
-                    k = a.get('k')
-                    if k:
-                        if 'fn' in k:
-                            out.add(k['fn'])
-                        if 'closure' in k:
-                            out.add(k['closure'])
+                    from_operand(a)
             for st in blk['stmts']:
                 if st['k'] != 'assign':
                     continue
                 rv = st['rv']
                 for key in ('a', 'b'):
-                    o = rv.get(key)
-                    if isinstance(o, dict) and 'k' in o:
-                        k = o['k']
-                        if 'fn' in k:
-                            out.add(k['fn'])
-                        if 'closure' in k:
-                            out.add(k['closure'])
+                    if isinstance(rv.get(key), dict):
+                        from_operand(rv[key])
                 if rv['k'] == 'agg':
                     if rv.get('ak') == 'closure':
-                        out.add(rv['closure'])
+                        add(rv['closure'], None, True)
                     for o in rv['ops']:
-                        k = o.get('k')
-                        if k:
-                            if 'fn' in k:
-                                out.add(k['fn'])
-                            if 'closure' in k:
-                                out.add(k['closure'])
+                        from_operand(o)
         return out
 
-    def impl_targets(self, trait_method_path):
-        """For an unresolved trait-method path `Trait::m` return all workspace impl fns + the default body."""
+    def _impl_index(self):
+        if getattr(self, '_impls_by_trait', None) is None:
+            d = defaultdict(list)
+            by_adt = defaultdict(list)
+            for im in self.impls:
+                if im.get('trait_def'):
+                    d[short(im['trait_def'])].append(im)
+                head = self_head(im['self_ty'])
+                if head and '::' in head and head.split('::')[0] in self.crates:
+                    by_adt[head].append(im)
+            self._impls_by_trait = d
+            self._impls_by_adt = by_adt
+        return self._impls_by_trait, self._impls_by_adt
+
+    def impl_targets(self, trait_method_path, full=None):
+        """Workspace bodies a trait-method call may execute. `full` (callee with generic args) narrows by the
+        head type of the qualified self when that is a concrete ADT; type parameters / projections fan out."""
         sp = short(trait_method_path)
         if '::' not in sp:
             return []
-        tr, m = sp.rsplit('::', 1)
+        tr, mname = sp.rsplit('::', 1)
+        by_trait, by_adt = self._impl_index()
+        qs = qself(full) if full else None
+        head = self_head(qs) if qs else None
         out = []
-        for im in self.impls:
-            if im.get('trait_def') and short(im['trait_def']) == tr and m in im['items']:
-                p = im['items'][m]
-                if p in self.fns:
-                    out.append(self.fns[p])
-        # default body
+        for im in by_trait.get(tr, []):
+            if mname not in im['items']:
+                # inherits the default body
+                continue
+            ih = self_head(im['self_ty'])
+            if head and ih and is_concrete_head(head) and is_concrete_head(ih) and head != ih:
+                continue
+            p = im['items'][mname]
+            if p in self.fns:
+                out.append(self.fns[p])
+        # default body (used by impls that do not override)
         for f in self.by_short.get(sp, []):
             if f.raw.get('trait_default_of'):
                 out.append(f)
         return out
 
-    def resolve_targets(self, callee_path):
-        """Workspace Fn objects a call to `callee_path` may execute (polymorphic, conservative)."""
+    BASIC_TRAITS = ('core::hash::Hash', 'core::cmp::PartialEq', 'core::cmp::Eq', 'core::cmp::Ord', 'core::cmp::PartialOrd',
+                    'core::clone::Clone', 'core::default::Default', 'core::ops::drop::Drop', 'core::fmt::Debug', 'core::fmt::Display',
+                    'core::convert::From', 'core::convert::AsRef', 'core::iter::traits::iterator::Iterator',
+                    'core::iter::traits::collect::FromIterator', 'core::iter::traits::collect::IntoIterator')
+
+    def callbacks(self, full, trait=None):
+        """Workspace trait-impl methods that an *external* generic callee may call back into: for a trait method, the
+        impls of the same trait for workspace ADTs mentioned in its generic arguments; for other callees the impls of a
+        fixed list of basic traits."""
+        if not full or '<' not in full:
+            return []
+        by_trait, by_adt = self._impl_index()
+        traits = (short(trait),) if trait else self.BASIC_TRAITS
+        if trait and short(trait) in ('core::convert::Into',):
+            traits = ('core::convert::From',)
+        if trait and short(trait).startswith('core::iter::traits::'):
+            traits = tuple(t for t in self.BASIC_TRAITS if 'iter' in t) + ('core::iter::traits::double_ended::DoubleEndedIterator',
+                                                                           'core::iter::traits::exact_size::ExactSizeIterator')
+        out = []
+        for head, ims in by_adt.items():
+            if head in full:
+                for im in ims:
+                    if not im.get('trait_def') or short(im['trait_def']) not in traits:
+                        continue
+                    for nm, p in im['items'].items():
+                        if p in self.fns:
+                            out.append(self.fns[p])
+        return out
+
+    def resolve_targets(self, callee_path, full=None, resolved=False, trait=None):
+        """Workspace Fn objects a call may execute (polymorphic, conservative)."""
         if callee_path in self.fns:
             f = self.fns[callee_path]
-            if f.raw.get('trait_default_of'):
-                # a call through the trait on a type parameter: any impl or the default
-                return list({id(x): x for x in [f] + self.impl_targets(callee_path)}.values())
+            if f.raw.get('trait_default_of') and not resolved:
+                return list({id(x): x for x in [f] + self.impl_targets(callee_path, full)}.values())
             return [f]
-        sp = short(callee_path)
-        c = self.by_short.get(sp)
-        if c:
-            return list(c)
-        t = self.impl_targets(callee_path)
-        return t
+        if resolved:
+            # resolved to a body outside the workspace: only call-backs into workspace impls
+            return self.callbacks(full, trait)
+        t = self.impl_targets(callee_path, full)
+        cb = self.callbacks(full, trait)
+        return list({id(x): x for x in t + cb}.values())
 
     def reach(self, roots, stop=lambda f: False):
         """Workspace fns reachable from roots through the polymorphic graph; also returns leaf (external) callee paths."""
@@ -485,9 +561,9 @@ class DB:
             f = st.pop()
             if stop(f):
                 continue
-            for c in self.edges(f):
-                ts = self.resolve_targets(c)
-                if not ts:
+            for c, full, res, tr in self.edges(f):
+                ts = self.resolve_targets(c, full, res, tr)
+                if c not in self.fns:
                     ext[c].add(f.path)
                 for t in ts:
                     if t.path not in seen:
